@@ -11,6 +11,7 @@ CONSTANTS
   FixUncl = TRUE
   FixCase = TRUE
   FixItems = TRUE
+  ItemsOnce = FALSE
   Lenient <- LenUdigit
   WithLex = TRUE
   Emit = FALSE
